@@ -78,7 +78,16 @@ func runBoundedHarness(o *runOpts, name string) boundedResult {
 	for k, v := range m.Env {
 		cmd.Env = append(cmd.Env, k+"="+v)
 	}
+	// the module files of the repository must come out of the run exactly as they went in
+	modBefore, _ := os.ReadFile(filepath.Join(o.repo, "go.mod"))
+	sumBefore, _ := os.ReadFile(filepath.Join(o.repo, "go.sum"))
 	out, runErr := cmd.CombinedOutput()
+	if b, err := os.ReadFile(filepath.Join(o.repo, "go.mod")); err == nil && modBefore != nil && string(b) != string(modBefore) {
+		os.WriteFile(filepath.Join(o.repo, "go.mod"), modBefore, 0o644)
+	}
+	if b, err := os.ReadFile(filepath.Join(o.repo, "go.sum")); err == nil && sumBefore != nil && string(b) != string(sumBefore) {
+		os.WriteFile(filepath.Join(o.repo, "go.sum"), sumBefore, 0o644)
+	}
 	res.Seconds = time.Since(start).Seconds()
 	known := loadKnownFindings(o.verif)
 	var fails []string
